@@ -29,11 +29,20 @@ class V:
         self.val = val  # constant payload for str (needed by STACK_GLOBAL)
         self.call = call  # opcode name that produced this call result
 
-    def hashable(self):
+    def hashable(self, _path=None):
         if self.k in HASHABLE_SCALARS or self.k == "fset":
             return True
         if self.k == "tuple":
-            return all(c.hashable() for c in self.kids)
+            # (under the loosely typed profiles a mutating opcode may have been applied to a
+            # tuple-typed value, so the abstract value can contain itself: not hashable)
+            _path = _path if _path is not None else set()
+            if id(self) in _path:
+                return False
+            _path.add(id(self))
+            try:
+                return all(c.hashable(_path) for c in self.kids)
+            finally:
+                _path.discard(id(self))
         return False
 
     def __repr__(self):
